@@ -62,10 +62,25 @@ Strings == {"a\"b", "back\\slash", "C:\\temp\\new\\report.txt", "tab\there", "nl
 BadShapes == {"unknown-operator", "arity-0", "arity-1-eq", "arity-1-plus", "arity-1-lt", "set-arity-1", "set-arity-3", "call-arity-0", "missing-name",
               "missing-when", "missing-then", "when-number", "empty-input", "blank-input", "not-json", "two-keys", "obj-not-string",
               "const-array", "unknown-nested", "arity-1-nested"}
+\* numbers are given as decimal text (TLC integers are 32-bit): the translated rule must denote exactly the number the
+\* JSON text denotes (as a float64), as a bare operand, inside {"const": n} and as a call argument
+Numbers == {"16777217", "20240131", "123456789", "0.123456789", "1234567.891", "4294967297", "0.1", "-16777217", "100000000", "33554433",
+            "0.30000000000000004", "3.141592653589793", "2.5e-7", "1e15", "123456.7", "7", "0.5", "-2.25", "281474976710657", "1e-9"}
+NumForms == {"plain", "const", "arg"}
+\* rule sets: the translation of an array is the concatenation of the translations of its elements - an element takes
+\* nothing over from its neighbours.  desc "-" / sal 99 mean that the member is absent (defaults "" and 0).
+GoodElems == {[k |-> "rule", desc |-> d, sal |-> sl] : d \in {"-", "d1", "d2"}, sl \in {99, 0, 5, -3}}
+BadElems == {[k |-> b, desc |-> "-", sal |-> 99] : b \in {"no-when", "no-then", "no-name", "null"}}
+Elems == GoodElems \cup BadElems
+SetWant(es) == [accepted |-> \A i \in DOMAIN es : es[i].k = "rule",
+                rules |-> [i \in DOMAIN es |-> [desc |-> IF es[i].desc = "-" THEN "" ELSE es[i].desc, sal |-> IF es[i].sal = 99 THEN 0 ELSE es[i].sal]]]
 Trees(z) == CASE Depth = 1 -> L1(0) [] Depth = 2 -> L2(0) [] OTHER -> {}
 Init == IF Depth = 0
         THEN \/ \E s \in Strings : case = [fam |-> "jsonstr", str |-> s, want |-> S(s)]
              \/ \E b \in BadShapes : case = [fam |-> "jsonbad", shape |-> b, want |-> Err]
+             \/ \E x \in Numbers, f \in NumForms : case = [fam |-> "jsonnum", num |-> x, form |-> f, want |-> S(x)]
+             \/ \E a \in Elems, b \in Elems : case = [fam |-> "jsonset", elems |-> <<a, b>>, want |-> S(""), set |-> SetWant(<<a, b>>)]
+             \/ \E a \in GoodElems, b \in Elems, c \in GoodElems : case = [fam |-> "jsonset", elems |-> <<a, b, c>>, want |-> S(""), set |-> SetWant(<<a, b, c>>)]
         ELSE IF Depth = 3 THEN Init3
         ELSE \E n \in Trees(0) : Emit(n)
 Next == UNCHANGED case
